@@ -49,6 +49,38 @@ def expression_family(tier):
     return out
 
 
+
+# identifiers are free: a name spelled like a token of the grammar that is not a keyword (number, string, comma, id, ...),
+# or made of a keyword and more letters, is a plain name in every position a name can stand in
+NAME_EXTRAS = ['iff', 'ending', 'end', 'end_if', 'endif', 'selfish', 'selected_', 'not_', 'r1', 'R2x', 'to_', 'empty_',
+               'orx', 'andy', 'true_', 'falsey', 'param_', 'rcvd', 'elsif', 'anyone', 'one1', 'by_', '_if', 'object',
+               'integer', 'real', 'boolean', 'unique_id', 'inst_ref', 'instance', 'event', 'void', 'operation', 'function']
+
+
+def token_like_names():
+    from bridgepoint import oal
+    kw = set(oal.OALParser.keywords)
+    names = [t for t in oal.OALParser.tokens if t not in kw]
+    out = []
+    for n in names:
+        for form in (n.lower(), n, n.capitalize()):
+            if form not in out:
+                out.append(form)
+    return out + NAME_EXTRAS
+
+
+def names_family():
+    out = []
+    for n in token_like_names():
+        leaves = [V(n), ('field', V('a'), n), ('field', V(n), n), ('param', n), ('field', ('param', 'p'), n), ('rcvd', n),
+                  ('field', ('self',), n), ('index', V(n), I(1)), ('fcall', n, []), ('fcall', 'f', [(n, I(1)), ('b', V(n))]),
+                  ('ncall', 'NS', n, [(n, I(1))]), ('ncall', n, 'g', []), ('icall', V(n), n, [(n, V(n))]),
+                  ('enum', 'Color', n), ('enum', n, 'Red')]
+        for l in leaves:
+            out.append(('names', ('bin', '+', l, I(1))))
+            out.append(('names', ('un', 'not', l)))
+    return out
+
 def with_groups(e):
     '''e with one redundant pair of parentheses around each sub-expression in turn.'''
     out = [('grp', e)]
